@@ -292,7 +292,7 @@ class MITMProxyEventManager:
                         parsed[cap_name] = region.register_wrapper_cap(cap_name)
                 # Send the client the URLs for any proxy-only caps it requested
                 for cap_name in flow.metadata['needed_proxy_caps']:
-                    parsed[cap_name] = region.cap_urls[cap_name]
+                    parsed[cap_name] = region.proxy_cap_url(cap_name)
                 flow.response.content = llsd.format_xml(parsed)
             elif cap_data.cap_name == "EventQueueGet":
                 parsed_eq_resp = llsd.parse_xml(flow.response.content)
